@@ -186,11 +186,31 @@ Module Concrete.
       else negb (sp_engine s)                                    (* refund key: not before *)
     else negb (sp_engine s).                                     (* no other key *)
 
+  (* the script embeds depositor, optional extra data and blinding factor as dropped pushes, in
+     this order, in front of the key logic *)
+  Definition embeds (d : dep_in) (script : bytes) : bool :=
+    match parse script with
+    | Some (OPush _ dep :: ODrop :: rest) =>
+        opt_eqb bytes_eqb (hex_decode (trim0x (di_depositor d))) (Some dep) &&
+        match di_extra d with
+        | Some x => match rest with
+                    | OPush _ x' :: ODrop :: OPush _ bl :: ODrop :: ODup :: _ =>
+                        bytes_eqb x x' && bytes_eqb bl (di_blinding d)
+                    | _ => false
+                    end
+        | None => match rest with
+                  | OPush _ bl :: ODrop :: ODup :: _ => bytes_eqb bl (di_blinding d)
+                  | _ => false
+                  end
+        end
+    | _ => false
+    end.
+
   Definition spec_ok (c : dep_case) : bool :=
     match dc_script c with
     | None => match script_of (dc_in c) with None => true | Some _ => false end
               && match dc_spends c with [] => true | _ => false end
-    | Some _ => forallb (spec_spend c) (dc_spends c)
+    | Some script => embeds (dc_in c) script && forallb (spec_spend c) (dc_spends c)
     end.
 
   Definition agree (c : dep_case) : bool :=
